@@ -192,7 +192,7 @@ theorem allSome_cons_some {α : Type} {x : Option α} {rest : List (Option α)} 
 theorem resolveOneList_of_append (c : Compound) :
     ∀ (a : SelSet) (R : SelSet),
       allSome (a.flatMap fun b => [Selector.leaf c].map fun e => Selector.appendSel Compound.append b e) = some R →
-      resolveOneList nestSpec c a = R
+      resolveOneList nestAsis c a = R
   | [], R, h => by simp [allSome] at h; simp [resolveOneList, h]
   | s :: ss, R, h => by
     simp only [List.flatMap_cons, List.map_cons, List.map_nil, List.singleton_append] at h
@@ -207,7 +207,7 @@ theorem resolveOneList_of_append (c : Compound) :
       · split at h1
         · next x hx =>
           simp only [Option.some.injEq] at h1
-          simp [resolveOne, hx, nestSpec, h1]
+          simp [resolveOne, hx, nestAsis, h1]
         · simp at h1
 
 end Sel
